@@ -209,7 +209,10 @@ def gen_history(rng, nops, keys, mix):
             ops.append('size')
         elif k == 'walk':
             n = rng.choice([0, 1, 2, 3, max(1, len(shadow) - 1), len(shadow), len(shadow) + 1, len(keys) + 3, len(keys) + 3])
-            ops.append('walk %d' % n)
+            if rng.random() < 0.3:              # the same walk with reads of one key between the steps (reads do not modify the table)
+                ops.append('walkget %d %s' % (n, hexs(cstr(key)) or '00'))
+            else:
+                ops.append('walk %d' % n)
         else:
             ops.append(rng.choice(['putnull ' + hexs(key), 'putstrnull ' + hexs(key), 'putnn 0102', 'getnn', 'removenn']))
     return ops
@@ -226,6 +229,8 @@ def directed_removals(rng, col, r):
             victim = ks[L - 1 - pos]
             ops += ['walk %d' % (L + 2), 'walk 2', 'walk %d' % (L + 2), 'remove ' + hexs(victim), 'size', 'walk %d' % (L + 2)]
             ops += ['get ' + hexs(k) for k in ks]
+            # a complete walk with reads of every position of the chain in turn between the steps
+            ops += ['walkget %d %s' % (L + 2, hexs(k)) for k in ks if k != victim]
             ops += ['remove ' + hexs(victim), 'put %s %s' % (hexs(victim), hexs(b'again')), 'walk 1', 'walk %d' % (L + 2)]
             # replace in the middle of a chain: the node must stay where it is
             mid = ks[L // 2]
@@ -281,6 +286,8 @@ def parse_walk(obs):
 def monitor(opline, impl, spec):
     """Property monitor: implementation observation vs specification observation. Returns a signature dict or None."""
     kind = opline.split()[0]
+    if kind == 'walkget':
+        kind = 'walk'
     if impl in ('DEAD', 'MISSING'):
         return None
     if impl in ('CRASH', 'TIMEOUT'):
@@ -369,6 +376,8 @@ def run_histories(ctx, exe, histories, label):
         hdr, ops = histories[hi]
         op = ops[oi]
         kind = op.split(' ', 1)[0]
+        if kind == 'walkget':
+            kind = 'walk'
         ctx.cov['evaluations'] += 1
         ctx.count(label + ':' + kind)
         if s == 'S UNDEFINED':
